@@ -99,7 +99,7 @@ func runStartFail(c *fw.Ctx, idx int, r *fw.Rand) {
 		// more is decided at once (deadlock evidence), without depending on a reproduction.
 		if ok, dump := c.Within(wd/time.Duration(c.Slow), st.f); !ok {
 			hangsSeen++
-			c.Hang("shutdown-after-start-failure:"+st.name, fmt.Sprintf("%s: after the %s listener failed to start (error reported on Notify) and shutdown was requested, %s does not return although no session was ever open",
+			c.Hang("shutdown-after-start-failure", fmt.Sprintf("%s: after the %s listener failed to start (error reported on Notify) and shutdown was requested, %s does not return although no session was ever open",
 				desc, which, st.name), dump)
 			return
 		}
